@@ -1590,6 +1590,12 @@ func (e *pegEngine) literalComparisonOnPaths(fn *ssa.Function) (cmpOK, folds boo
 		}
 		for _, pair := range [][2]ssa.Value{{bo.X, bo.Y}, {bo.Y, bo.X}} {
 			ex, ok := pair[1].(*ssa.Extract)
+			if !ok {
+				// the ranged rune handed to a small predicate (`lit.accepts(cur, want)`): the parameter stands for it
+				if ws := ps.sym(st, pair[1]); ws != nil {
+					ex, ok = ws.V.(*ssa.Extract)
+				}
+			}
 			if !ok || ex.Index != 2 {
 				continue
 			}
